@@ -64,7 +64,11 @@ def pick_keysets(hashes):
     hmap = {}
     for k, h in zip(POOL, hashes):
         hmap[(type(k).__name__, k)] = h
-    for nm, ks in sets.items():
+    sets["_hashes"] = {}
+    for nm, ks in list(sets.items()):
+        if nm == "_hashes":
+            continue
+        sets["_hashes"][nm] = [hmap[(type(k).__name__, k)] for k in ks]
         if len(ks) < 7:
             raise HarnessError("key survey: class %s has only %d members" % (nm, len(ks)))
         hh = [hmap[(type(k).__name__, k)] for k in ks]
@@ -127,6 +131,7 @@ def root_jdn(root):
     return "[" + " ".join([":" + root[0]] + [str(x) for x in root[1:]]) + "]"
 
 
+KHASH = {}    # key class -> hashes of its 7 keys
 KEYSRC = None  # list of janet source text of the 7 keys (for replay scripts)
 
 
@@ -436,7 +441,31 @@ def table_bfs(chk, name, keys, roots, max_depth, variant, full, with_clone, dead
     n = len(states)
     caps = sorted(set(int(k.split(",")[0].split("C")[1]) for k in seen))
     tomb = sum(1 for k in seen if "x" in k.split(",")[1])
+    # vacuity counters: how many states have a live key displaced from its home bucket / wrapped around
+    kh = KHASH.get(name.split("-")[1][0])
+    displaced = wrapped = maxdist = 0
+    if kh:
+        for k in seen:
+            lay = k.split(";")[0].split(",")
+            cap = int(lay[0].split("C")[1])
+            pos = [i for i, ch in enumerate(lay[1]) if ch == "k"]
+            dmax = 0
+            w = False
+            for p, kc_ in zip(pos, lay[2]):
+                if not kc_.isdigit():
+                    continue
+                home = kh[int(kc_)] % cap
+                d = (p - home) % cap
+                dmax = max(dmax, d)
+                if p < home:
+                    w = True
+            if dmax:
+                displaced += 1
+            if w:
+                wrapped += 1
+            maxdist = max(maxdist, dmax)
     chk.add(states=n)
+    chk.part(name, states_with_displaced_key=displaced, states_with_wrapped_probe=wrapped, max_probe_distance=maxdist)
     chk.part(name, states=n, depth_completed=completed, variant=variant, capacities_seen=str(caps),
              states_with_tombstones=tomb, differential_routes=ndiff, differential_depth=diff_done, violations=nviol[0],
              wall_s=round(time.time() - t_start, 1), ops_per_state=len(ops))
@@ -535,6 +564,7 @@ def main():
 
     hashes = survey()
     keysets, kinfo = pick_keysets(hashes)
+    KHASH.update(keysets.pop("_hashes"))
     chk.part("keys", **{k: str(v) for k, v in kinfo.items()})
     for nm, inf in kinfo.items():
         if nm == "A" and inf["equal_full_hash_pairs"] < 3:
@@ -550,12 +580,12 @@ def main():
     #  minimum depth, alphabet). Every part stops *between* depths when its share of the budget is used up.
     if quick:
         plan = [
-            ("table-A", keysets["A"], roots_main, 4, "fast", True, True, 0.10, 3, 4, "full"),
-            ("table-A-asan", keysets["A"], roots_main, 3, "asan", True, True, 0.05, 0, 3, "full"),
-            ("layout-A", keysets["A"], roots_main, 30, "fast", True, False, 0.15, 4, 12, "layout"),
-            ("layout-B", keysets["B"], roots_more, 9, "fast", True, False, 0.08, 0, 7, "layout"),
-            ("layout-C", keysets["C"], roots_more, 9, "fast", True, False, 0.08, 0, 7, "layout"),
-            ("layout-A-asan", keysets["A"], roots_main, 8, "asan", True, True, 0.08, 0, 6, "layout"),
+            ("table-A", keysets["A"], roots_main, 4, "fast", True, True, 0.10, 3, 3, "full"),
+            ("table-A-asan", keysets["A"], roots_main, 3, "asan", True, True, 0.05, 0, 2, "full"),
+            ("layout-A", keysets["A"], roots_main, 12, "fast", True, False, 0.12, 4, 8, "layout"),
+            ("layout-B", keysets["B"], roots_more, 8, "fast", True, False, 0.07, 0, 5, "layout"),
+            ("layout-C", keysets["C"], roots_more, 8, "fast", True, False, 0.07, 0, 5, "layout"),
+            ("layout-A-asan", keysets["A"], roots_main, 8, "asan", True, True, 0.07, 0, 5, "layout"),
         ]
     else:
         plan = [
